@@ -114,11 +114,15 @@ def run_impl(case, data):
         obs["orig_meta"] = dict(spikeglx.read_meta_data(f.with_suffix(".meta")))
         conv = None
         try:
-            conv = neuropixel.NP2Converter(f, post_check=case.get("post_check", False), compress=False)
+            if case["W"] < 576 and case["W"] % 12 == 0 and case["ns"] > case["W"]:
+                raise RuntimeError("harness guard: this window/length pair makes the real loop run forever")
+            conv = neuropixel.NP2Converter(str(f) if case.get("strpath") else f,
+                                           post_check=case.get("post_check", False),
+                                           compress=bool(case.get("compress", False)))
             s2v = conv.sr.channel_conversion_sample2v["ap"]
             obs["s2v_bits"] = [int(x) for x in np.asarray(s2v, dtype=np.float32).view(np.uint32)[[0, -1]]]
             obs["s2v_dtype"] = str(s2v.dtype)
-            conv.init_params(nwindow=case["W"])
+            conv.init_params(nwindow=float(case["W"]) if case.get("wfloat") else case["W"])
             obs["status"] = int(conv.process())
         except Exception as e:          # noqa
             obs["error"] = ("convert", type(e).__name__, str(e)[:200])
@@ -129,13 +133,24 @@ def run_impl(case, data):
                     conv.sr.close()
                 except Exception:       # noqa
                     pass
-        for key, info in conv.shank_info.items():
-            apf = Path(info["ap_file"])
-            chns = [int(c) for c in info["chns"]]
-            raw = np.fromfile(apf, dtype=np.int16)
-            meta = dict(spikeglx.read_meta_data(apf.with_suffix(".meta")))
-            obs["shanks"].append({"key": key, "folder": apf.parent.name, "chns": chns, "raw": raw,
-                                  "meta": meta, "nbytes": apf.stat().st_size})
+        try:
+            for key, info in conv.shank_info.items():
+                apf = Path(info["ap_file"])
+                chns = [int(c) for c in info["chns"]]
+                if apf.suffix == ".cbin":       # compress=True: read the compressed shank file back
+                    with spikeglx.Reader(apf, sort=False) as srs:
+                        raw = np.array(srs._raw[0:srs.ns, :], dtype=np.int16).ravel()
+                    nbytes = int(raw.size * 2)
+                    obs["compressed_left_bin"] = obs.get("compressed_left_bin", False) or apf.with_suffix(".bin").exists()
+                else:
+                    raw = np.fromfile(apf, dtype=np.int16)
+                    nbytes = apf.stat().st_size
+                meta = dict(spikeglx.read_meta_data(apf.with_suffix(".meta")))
+                obs["shanks"].append({"key": key, "folder": apf.parent.name, "chns": chns, "raw": raw,
+                                      "meta": meta, "nbytes": nbytes})
+        except Exception as e:          # noqa  (files the converter claims to have written are unreadable)
+            obs["error"] = ("collect", type(e).__name__, str(e)[:200])
+            return obs
         obs["folders"] = sorted(p.name for p in base.iterdir() if p.name != "probe00")
         # reconstruct into a fresh probe00 directory
         shutil.move(str(d), str(base / "orig"))
@@ -161,6 +176,10 @@ def expected_status(W):
     if W == 576:
         return ("convert", "ZeroDivisionError")
     return None
+
+
+def window_class(case):
+    return "below_overlap" if (case["W"] < 576 and case["W"] % 12 == 0) else "ok"
 
 
 def oracle(case, data, obs):
@@ -456,7 +475,15 @@ def gen_ns(rng, W):
     return max(144, rng.choice(c))
 
 
-def gen_data(rng, nprng, ns, nap, palette_size=3000):
+def gen_data(rng, nprng, ns, nap, palette_size=3000, allvals=False):
+    if allvals:                         # every int16 value occurs in the AP block
+        data = nprng.integers(-32768, 32768, size=(ns, nap + 1)).astype(np.int16)
+        block = data[:, :nap].ravel()
+        block[nprng.permutation(block.size)[:65536]] = np.arange(-32768, 32768).astype(np.int16)
+        data[:, :nap] = block.reshape(ns, nap)
+        base = 0
+        data[:, nap] = ((np.arange(ns) + 32768) % 65536 - 32768).astype(np.int16)
+        return data, base
     pal = np.array(sorted(set(BAD_VALUES) | set(int(x) for x in nprng.integers(-32768, 32768, palette_size))),
                    dtype=np.int16)
     data = pal[nprng.integers(0, pal.size, size=(ns, nap + 1))]
@@ -482,7 +509,13 @@ def gen_cases(ctx):
         cases.append({"nap": 384, "ns": ns, "W": W, "labels": gen_labels(rng, 384),
                       "gain": GAINS[(i + rng.randrange(9)) % 9] if i >= 9 else GAINS[i],
                       "template": i % len(TEMPLATES), "post_check": i % 3 == 0,
+                      "wfloat": i % 4 == 1, "strpath": i % 5 == 2, "compress": i % 6 == 3,
                       "full": i < (6 if ctx.thorough() else 2)})
+    # recordings in which every one of the 65536 sample values occurs (one gain in quick, all nine in thorough)
+    for g in (GAINS if ctx.thorough() else [rng.choice(GAINS)]):
+        cases.append({"nap": 384, "ns": rng.choice([589, 600, 700]), "W": 588, "labels": gen_labels(rng, 384),
+                      "gain": g, "template": rng.randrange(len(TEMPLATES)), "post_check": True, "full": False,
+                      "allvals": True})
     for i in range(small):
         nap = rng.choice([1, 1, 2, 3, 4, 5, 8, 12])
         W = 12 * rng.choice([49, 50, 51, 60, 96, 97, 100, rng.randrange(49, 260)])
@@ -493,7 +526,17 @@ def gen_cases(ctx):
             nap = rng.choice([1, 2])
         cases.append({"nap": nap, "ns": ns, "W": W, "labels": gen_labels(rng, nap),
                       "gain": rng.choice(GAINS), "template": rng.randrange(len(TEMPLATES)),
-                      "post_check": rng.random() < 0.3, "full": True})
+                      "post_check": rng.random() < 0.3, "full": True,
+                      "wfloat": rng.random() < 0.2, "strpath": rng.random() < 0.2,
+                      "compress": rng.random() < 0.15})
+    # windows not above the hard-coded overlap, on recordings no longer than the window (these terminate):
+    # known finding F-C03-b when samples are dropped; ns == W is lossless
+    for W, ns in [(300, 200), (564, 563), (564, 564), (300, 300), (288, 200), (240, 200), (420, 150)] + (
+            [(12 * rng.randrange(13, 48), 0) for _ in range(12)] if ctx.thorough() else []):
+        ns = ns or rng.randrange(144, W + 1)
+        nap = rng.choice([2, 3, 384]) if W == 300 else rng.choice([1, 2, 4])
+        cases.append({"nap": nap, "ns": ns, "W": W, "labels": gen_labels(rng, nap), "gain": rng.choice(GAINS),
+                      "template": rng.randrange(len(TEMPLATES)), "post_check": False, "full": nap < 10})
     # malformed window sizes
     for W in [576, 1201, 590, 1199, 7] + ([rng.randrange(577, 3000) for _ in range(10)] if ctx.thorough() else []):
         cases.append({"nap": rng.choice([2, 384]), "ns": 1500, "W": W, "labels": None, "gain": GAINS[0],
@@ -523,6 +566,7 @@ def gen_codec(ctx):
 # --------------------------------------------------------------------------
 def describe(case):
     d = {k: case[k] for k in ("nap", "ns", "W", "gain", "template", "post_check")}
+    d.update({k: bool(case.get(k, False)) for k in ("wfloat", "strpath", "compress", "allvals")})
     d["labels"] = case["labels"]
     d["data_seed"] = case.get("data_seed")
     return d
@@ -532,7 +576,7 @@ def build_data(case):
     import random as _r
     rng = _r.Random(case["data_seed"])
     nprng = np.random.default_rng(case["data_seed"])
-    data, base = gen_data(rng, nprng, case["ns"], case["nap"])
+    data, base = gen_data(rng, nprng, case["ns"], case["nap"], allvals=bool(case.get("allvals")))
     case["sync_base"] = base
     return data
 
@@ -550,7 +594,8 @@ def run(ctx):
     kernel_terms = []
     dist = {"conversions": 0, "nap384": 0, "multi_window": 0, "unaligned_length": 0, "single_shank": 0,
             "four_shanks": 0, "malformed_window": 0, "post_check": 0, "multi_recon_window": 0,
-            "full_model_runs": 0, "values_compared": 0, "codec_lists": 0}
+            "full_model_runs": 0, "values_compared": 0, "codec_lists": 0,
+            "window_below_overlap": 0, "all_65536_values_files": 0, "float_nwindow": 0, "str_path": 0, "compressed_shanks": 0}
     gains_seen, nontrivial, samples = set(), set(), []
     kernel_full = 0
     for ci, case in enumerate(cases):
@@ -559,7 +604,7 @@ def run(ctx):
         obs = run_impl(case, data)
         dsc = describe(case)
         for tag, msg in oracle(case, data, obs):
-            ctx.fail(msg, dsc, {"kind": tag})
+            ctx.fail(msg, dsc, {"kind": tag, "window_class": window_class(case)})
         dist["conversions"] += 1
         malformed = expected_status(case["W"]) is not None
         dist["malformed_window"] += malformed
@@ -569,7 +614,15 @@ def run(ctx):
         if malformed or obs["error"]:
             continue
         W, ns, nap = case["W"], case["ns"], case["nap"]
-        nw = max(-(-(ns - W) // (W - 576)), 0) + 1
+        dist["float_nwindow"] += bool(case.get("wfloat"))
+        dist["all_65536_values_files"] += bool(case.get("allvals"))
+        dist["str_path"] += bool(case.get("strpath"))
+        dist["compressed_shanks"] += bool(case.get("compress"))
+        if case.get("compress") and obs.get("compressed_left_bin"):
+            ctx.fail("compress=True left the uncompressed shank .bin next to the .cbin", dsc, {"kind": "compress"})
+        if W < 576:
+            dist["window_below_overlap"] += 1
+        nw = (max(-(-(ns - W) // (W - 576)), 0) + 1) if W > 576 else 1
         dist["nap384"] += nap == 384
         dist["multi_window"] += nw > 1
         dist["unaligned_length"] += nw > 1 and (ns - W) % (W - 576) != 0
@@ -587,7 +640,7 @@ def run(ctx):
             dist["values_compared"] += vc[0][4]
             if not vc[2]:
                 ctx.fail("the same sample value is written differently at different cells", dsc, {"kind": "content"})
-        if nap == 384 and ci < 3:           # every distinct value present, uncapped (extracted model only)
+        if nap == 384 and (ci < 3 or case.get("allvals")):   # every distinct value present, uncapped (extracted model only)
             vb = values_case(case, data, obs, ctx.rng, cap=0)
             if vb:
                 inputs.append(vb[0]), outputs.append(vb[1]), descr.append(dict(dsc, mode="values_all"))
@@ -652,6 +705,7 @@ def replay(ctx, data):
         print("kernel-evaluated model agrees with implementation:", not ids)
         return 1 if (back != list(inp["chns"]) or ids) else 0
     case = {k: inp[k] for k in ("nap", "ns", "W", "template", "post_check", "labels", "data_seed")}
+    case.update({k: inp.get(k, False) for k in ("wfloat", "strpath", "compress", "allvals")})
     case["gain"] = tuple(inp["gain"])
     arr = build_data(case)
     obs = run_impl(case, arr)
